@@ -28,7 +28,7 @@ type c09Case struct {
 }
 
 var c09Alphabet = []string{"mgrTick", "candTick", "onFull", "onLight", "off", "delKey", "restartMgr", "zkDown", "zkUp",
-	"promoteH2", "twoMasters", "stopReplH3", "writableH3", "fileTo2", "fileForced", "h1Dies", "adv5"}
+	"promoteH2", "twoMasters", "stopReplH3", "writableH3", "fileTo2", "fileForced", "fileStartedForced", "h1Dies", "adv5"}
 
 func c09Run(r *vt.Run, c c09Case) (canon string) {
 	r.Eval()
@@ -227,12 +227,19 @@ func c09Run(r *vt.Run, c c09Case) (canon string) {
 				if frozen() {
 					w.Servers["h3"].ReadOnly, w.Servers["h3"].SuperRO = false, false
 				}
-			case "fileTo2", "fileForced":
+			case "fileTo2", "fileForced", "fileStartedForced":
 				w.Advance(time.Second)
 				if !w.ZK.Exists(vns + "/switch") {
 					s := Switchover{To: "h2", Cause: CauseWorker, InitiatedBy: "worker", InitiatedAt: time.Now(), MasterTransition: SwitchoverTransition}
 					if ev == "fileForced" {
 						s = Switchover{From: h.MasterKey(), Cause: CauseManual, InitiatedBy: "op", InitiatedAt: time.Now(), MasterTransition: FailoverTransition}
+					}
+					if ev == "fileStartedForced" {
+						// an operator-forced failover that a manager started once; the attempt failed and the request
+						// was kept for a retry (run_count 1), or the manager died after starting it
+						now := time.Now()
+						s = Switchover{From: h.MasterKey(), Cause: CauseManual, InitiatedBy: "op", InitiatedAt: now, MasterTransition: FailoverTransition,
+							StartedBy: "h1", StartedAt: now, RunCount: 1, Result: &SwitchoverResult{Ok: false, Error: "previous attempt failed", FinishedAt: now}}
 					}
 					if s.To != h.MasterKey() {
 						w.ZK.Put(vns+"/switch", jsonStr(s))
